@@ -156,7 +156,12 @@ Definition run_filt (f : filt) : data -> fres :=
   | F_const true => fun _ => FPass
   | F_const false => fun _ => FReject
   | F_truthy_nonmapping => fun _ => FPass
-  | F_key k => fun d => match dget d k with Some v => if truthy v then FPass else FReject | None => FReject end
+  | F_key k => fun d => match dget d k with
+                        | Some (VMap l) =>       (* the item is itself a mapping: it replaces the data *)
+                            FReplace (map (fun kz => (fst kz, VInt (snd kz))) l)
+                        | Some v => if truthy v then FPass else FReject
+                        | None => FReject
+                        end
   | F_badkey => fun _ => FRaise EType
   end.
 
